@@ -46,6 +46,8 @@ def finalize(agg, tier):
             out.append("no arithmetic operation ran on back-end " + be)
         if not c.get("montgomery_pow:" + be) and be == "custom":
             out.append("the custom back-end's Montgomery exponentiation was never reached")
+        if not c.get("carry_chain_operands:" + be):
+            out.append("no carry-chain operand was offered to back-end " + be)
         for n in ("history_steps", "history_inplace_steps", "history_pool_checks"):
             if not c.get("%s:%s" % (n, be)):
                 out.append("deciding counter %s:%s is zero" % (n, be))
@@ -155,6 +157,7 @@ def arith(spec, ctx):
         if len(args) >= 2 and isinstance(args[-1], int) and isinstance(args[0], int) and rng.random() < 0.1:
             args[0] = rng.choice([args[-1], -args[-1], args[-1] * 3, args[-1] + 1, args[-1] - 1])
         run_case(ctx, be, I, op, args)
+    ctx.count("carry_chain_operands:" + be, intops.CARRY_CHAIN["n"])
 
 
 def histories(spec, ctx):
